@@ -8,7 +8,16 @@ ops
            points, or null when it raises
   {"op": "transpile", "sources": [...], "timeout": n}
         -> {"consts": {HEADER, LEN, LIST, LCD, SETUP_START, SETUP_END, LOOP_START, LOOP_END},
-            "results": [{"ok": True, "cpp", "functions": [names], "helpers": [..]} | {"ok": False, "exc", "msg"}]}
+            "results": [{"ok": True, "cpp", "functions": [names], "helpers": [..],
+                         "decls": [[name, kind]]   top-level device declarations in the order the emitter walks them
+                                                   (setup_body, then the hoisted ones of loop_body); kind 0 no library,
+                                                   1 Servo, 2 parallel LCD, 3 I2C LCD,
+                         "fnsel": {"fns": [{"name", "variants": [sig], "used": [sig], "aliases": [[sig, sig]], "primary": sig|null}],
+                                   "selected": [[name, sig]], "params": [[name, [C++ parameter types]]]}
+                                                   the tables the selection loop at the end of parse() reads (captured from the
+                                                   ctx that parse() hands to _parse_function), the (name, signature) of every
+                                                   FunctionDef in Program.functions (by object identity), and their C++ parameters}
+                        | {"ok": False, "exc", "msg"}]}
 """
 import ast
 import json
@@ -29,6 +38,56 @@ def _alarm(signum, frame):
 
 def cps(s):
     return [ord(c) for c in s]
+
+
+_CAP = {}
+_ORIG_PARSE_FUNCTION = P._parse_function
+
+
+def _capturing_parse_function(name, params_src, block, ctx, **kw):
+    _CAP["ctx"] = ctx           # the tables (function_defs, ...) are created by parse() and shared by every child ctx
+    return _ORIG_PARSE_FUNCTION(name, params_src, block, ctx, **kw)
+
+
+P._parse_function = _capturing_parse_function
+
+
+def _decls(prog):
+    from Reduino.transpile import ast as A
+    out = []
+
+    def kind(node, hoisted):
+        if isinstance(node, A.ServoDecl):
+            return 1
+        if isinstance(node, A.LCDDecl) and not hoisted:
+            return 3 if node.interface == "i2c" else 2
+        return 0
+
+    for hoisted, body in ((False, prog.setup_body or []), (True, prog.loop_body or [])):
+        for node in body:
+            if type(node).__name__.endswith("Decl") and hasattr(node, "name") and type(node).__name__ != "VarDecl":
+                out.append([node.name, kind(node, hoisted)])
+    return out
+
+
+def _fnsel(prog):
+    ctx = _CAP.get("ctx")
+    fns, ident = [], {}
+    if ctx is not None:
+        defs = ctx.get("function_defs", {})
+        used = ctx.get("function_call_signatures", {})
+        prim = ctx.get("function_primary_signature", {})
+        alias = ctx.get("function_signature_aliases", {})
+        for name, variants in defs.items():
+            for sig, node in variants.items():
+                ident[id(node)] = [name, list(sig)]
+            fns.append({"name": name, "variants": [list(k) for k in variants.keys()],
+                        "used": [list(k) for k in used.get(name, [])],
+                        "aliases": [[list(a), list(c)] for a, c in alias.get(name, {}).items()],
+                        "primary": list(prim[name]) if prim.get(name) is not None else None})
+    selected = [ident.get(id(fn), [fn.name, None]) for fn in getattr(prog, "functions", [])]
+    params = [[fn.name, [t for _, t in fn.params]] for fn in getattr(prog, "functions", [])]
+    return {"fns": fns, "selected": selected, "params": params}
 
 
 def main():
@@ -59,9 +118,12 @@ def main():
             try:
                 if hasattr(P, "_VERIF_IGNORED"):
                     del P._VERIF_IGNORED[:]
+                _CAP.clear()
                 prog = P.parse(src)
+                fnsel = _fnsel(prog)            # before emit(): read the parser's result, not what the emitter may touch
+                decls = _decls(prog)
                 cpp = E.emit(prog)
-                res.append({"ok": True, "cpp": cpp,
+                res.append({"ok": True, "cpp": cpp, "decls": decls, "fnsel": fnsel,
                             "functions": [fn.name for fn in getattr(prog, "functions", [])],
                             "helpers": sorted(getattr(prog, "helpers", []) or []),
                             "ignored": [list(map(str, x)) for x in getattr(P, "_VERIF_IGNORED", [])][:50]})
